@@ -442,6 +442,8 @@ class _MissingImportFinder:
         self._in_class_def = 0
         # Number of enclosing statements whose body may not run.
         self._conditional_depth = 0
+        # Names read in function bodies seen so far.
+        self._deferred_names = set()
 
     def find_missing_imports(self, node):
         self._scan_node(node)
@@ -1135,7 +1137,8 @@ class _MissingImportFinder:
             oldvalue = scope.get(fullname)
             if (isinstance(oldvalue, _UseChecker) and not oldvalue.used
                 and oldvalue.name == fullname
-                and not self._conditional_depth):
+                and not self._conditional_depth
+                and fullname.split(".")[0] not in self._deferred_names):
                 logger.debug("Adding to unused %s", oldvalue)
                 self.unused_imports.append((oldvalue.lineno, oldvalue.source))
         scope[fullname] = value
@@ -1209,6 +1212,9 @@ class _MissingImportFinder:
 
     def _visit_Load_defered(self, fullname):
         logger.debug("_visit_Load_defered(%r)", fullname)
+        # The function may be called at any later point: every later binding
+        # of the name may be the one it reads (see _visit_Store).
+        self._deferred_names.add(str(fullname).split(".")[0])
         if symbol_needs_import(fullname, self.scopestack):
             data = (fullname, self.scopestack.clone_top(), self._lineno)
             self._deferred_load_checks.append(data)
